@@ -36,6 +36,9 @@ A_LONG = A_SHORT + 'def root(x: Float) -> Float => sqrt x\ndef maybe: Int? := No
 B = 'def big: Shape := Shape(3)\nprint(big.area())\nprint(unit().area())\n'
 C = 'def count := 0\nfor i in 0 .. 3 do\n    count += i\nprint(count)\n'
 D = 'class Fresh(def tag: Str)\ndef fresh_fun() -> Int => 42\nprint(fresh_fun())\n'
+# a second version of d.mamba whose output has the SAME length (an "unchanged" shortcut keyed on size or
+# time stamps would keep the stale file)
+D_ALT = D.replace("42", "43")
 POOL = {"a.mamba": None, "sub/b.mamba": B, "sub/deep/c.mamba": C, "d.mamba": D}
 DEPENDS = {"sub/b.mamba": "a.mamba"}
 FAULTS = {
@@ -52,10 +55,12 @@ def projects(tier):
     out = []
     for k in range(1, len(names) + 1):
         for sub in itertools.combinations(names, k):
-            for aver in (("short", A_SHORT), ("long", A_LONG)) if "a.mamba" in sub else (("-", None),):
-                files = {p: (aver[1] if p == "a.mamba" else POOL[p]) for p in sub}
+            avers = (("short", A_SHORT), ("long", A_LONG)) if "a.mamba" in sub else (("-", None),)
+            dvers = (("", D), ("d2", D_ALT)) if "d.mamba" in sub and (not quick or len(sub) <= 2) else (("", D),)
+            for aver, dver in itertools.product(avers, dvers):
+                files = {p: (aver[1] if p == "a.mamba" else dver[1] if p == "d.mamba" else POOL[p]) for p in sub}
                 deps_ok = all(DEPENDS[p] in sub for p in sub if p in DEPENDS)
-                label = "+".join(p.split("/")[-1][0] for p in sub) + (":" + aver[0] if aver[0] != "-" else "")
+                label = "+".join(p.split("/")[-1][0] for p in sub) + (":" + aver[0] if aver[0] != "-" else "") + (":" + dver[0] if dver[0] else "")
                 out.append((label, files, deps_ok, [] if deps_ok else [p for p in sub if p in DEPENDS and DEPENDS[p] not in sub]))
                 if not deps_ok:
                     continue
@@ -242,13 +247,13 @@ def direct(tier, seed, agg):
             else:
                 by_file.setdefault(key, (text, c["tags"][0]))
     # ---- BFS over histories into one output directory
-    layouts = ["default"] if quick else ["default", "custom"]
+    layouts = ["default", "custom"]
     total_states, total_trans = 0, 0
     for layout in layouts:
         seen = {tree_key({}): {}}
         frontier = [({}, [])]
         empty_bytes = {}
-        for level in range(1, depth + 1):
+        for level in range(1, (1 if quick and layout == "custom" else depth) + 1):
             level_cases = []
             for pre, hist in frontier:
                 for name, files, ok, faulty, ann in ops:
@@ -274,11 +279,11 @@ def direct(tier, seed, agg):
                 # keep the quick tier small: continue from the states that differ most (one per distinct file set, long and short a)
                 keep, seen_sets = [], set()
                 for st, hist in frontier:
-                    sig = (tuple(sorted(st)), tuple(len(v) for _, v in sorted(st.items())))
+                    sig = (tuple(sorted(st)), tuple(len(v) for _, v in sorted(st.items())), "43" in st.get("d.py", ""))
                     if sig not in seen_sets:
                         seen_sets.add(sig)
                         keep.append((st, hist))
-                frontier = keep[:10]
+                frontier = keep[:12]
         total_states += len(seen)
     agg["extra"]["states"] = total_states
     agg["extra"]["transitions"] = total_trans
